@@ -605,6 +605,11 @@ func (e *Exec) check(st *State, kind, label, goal string, pos token.Pos) {
 	if goal == "true" || st.pc == "false" {
 		return
 	}
+	if e.eng.curProp != "" && len(e.propsDef) > 0 && !hasProp(e.propsDef, e.eng.curProp) && specAssertKinds[kind] {
+		// a specification-level assertion tagged for other properties: this run does not check it, so it
+		// must not rely on it either (a run-time check is different: the path continues only if it held)
+		return
+	}
 	sg, extra := e.sc.skolemize(goal)
 	o := &Obligation{
 		Name: e.oblName(kind, label), Kind: kind, Func: e.fn.String(), Pos: e.eng.posString(pos),
@@ -617,6 +622,8 @@ func (e *Exec) check(st *State, kind, label, goal string, pos token.Pos) {
 		e.sc.assert(imp(st.pc, goal))
 	}
 }
+
+var specAssertKinds = map[string]bool{"before": true, "before-send": true, "running": true}
 
 // checkProps is like check but with explicit property tags and no path narrowing.
 func (e *Exec) checkPost(st *State, kind, label, goal string, props []string, pos string) {
